@@ -9,6 +9,9 @@
 //   rt <tree>            -> parse(Xml::toString(tree))
 //   esc <0|1> <hex>      -> str <hex>   (escapeString through the public API)
 //   unesc <hex>          -> str <hex>   (Xml::Private::unescapeString)
+//   pparse <hex> / parser <hex> / file <tree>   the same as parse / parse / rt through Xml::parse(const String&),
+//                           Xml::Parser::parse, Xml::save + Xml::load + Xml::Parser::load (scratch file under $TMPDIR)
+//   hassign d s | hclear v | hsetstr v <hex> | hmut v <path> <edit…>  -> hv <v0> <v1> <v2> <v3>   (see Driver.lean)
 //   copy <tree>          -> cp <A> <B> <C>   A built on the heap; B = copy of A, edited; C assigned from A,
 //                           content cleared; A dumped and deleted, then B and C dumped (dumps without #line.col)
 //
@@ -228,6 +231,187 @@ static const char* msgCode(const String& s)
   return "other";
 }
 
+
+// ---- Variant handles (lean/Nstd/Xml/Heap.lean) ----------------------------------------------
+// 4 variables of type Xml::Variant that live until `reset`.  Every successful h-op prints the value of all of
+// them, read through const access only (the mutable accessor would clone).
+static const unsigned NVARS = 4;
+static Xml::Variant hvars[NVARS];
+static const Xml::Element hEmptyElement = Xml::Element();
+
+static bool isDec(const char* t)
+{
+  if(!*t)
+    return false;
+  for(; *t; ++t)
+    if(*t < '0' || *t > '9')
+      return false;
+  return true;
+}
+
+static String tokString(const char* tok)
+{
+  size_t len = 0;
+  unsigned char* d = hxBytes(tok, len);
+  String s((const char*)d, len);
+  free(d);
+  return s;
+}
+
+static Xml::Variant* nthVariant(Xml::Element& e, unsigned long k)
+{
+  for(List<Xml::Variant>::Iterator i = e.content.begin(), end = e.content.end(); i != end; ++i, --k)
+    if(k == 0)
+      return &*i;
+  return 0;
+}
+
+static const Xml::Variant* nthVariantConst(const Xml::Element& e, unsigned long k)
+{
+  for(List<Xml::Variant>::Iterator i = e.content.begin(), end = e.content.end(); i != end; ++i, --k)
+    if(k == 0)
+      return &*i;
+  return 0;
+}
+
+static void putVars()
+{
+  printf("hv");
+  for(unsigned i = 0; i < NVARS; ++i)
+  {
+    const Xml::Variant& cv = hvars[i];
+    fputc(' ', stdout);
+    // the const accessors on the "wrong" type hand out an empty value
+    bool okE = cv.isElement() || (cv.toElement().type.isEmpty() && cv.toElement().content.isEmpty() && cv.toElement().attributes.isEmpty());
+    bool okT = cv.isText() || cv.toString().isEmpty();
+    if(!okE || !okT)
+      printf("FAULT-const-accessor");
+    else if(cv.isElement())
+      dump(cv.toElement(), false);
+    else if(cv.isText())
+    {
+      fputc('t', stdout);
+      putStr(cv.toString());
+    }
+    else if(cv.isNull() && cv.getType() == Xml::Variant::nullType)
+      fputc('n', stdout);
+    else
+      printf("FAULT-type");
+  }
+}
+
+// hmut <v> <path> <edit...>: tokens 1.. ; returns false for a bad op (nothing executed)
+static bool doMut(const HxLine& l)
+{
+  if(l.ntok < 4 || !isDec(l.tok[1]))
+    return false;
+  unsigned long v = hxNum(l, 1);
+  if(v >= NVARS)
+    return false;
+  unsigned long path[64];
+  int npath = 0;
+  if(strcmp(l.tok[2], "-") != 0)
+  {
+    const char* p = l.tok[2];
+    for(;;)
+    {
+      if(*p < '0' || *p > '9' || npath >= 64)
+        return false;
+      char* e = 0;
+      path[npath++] = strtoul(p, &e, 10);
+      if(*e == 0)
+        break;
+      if(*e != '.')
+        return false;
+      p = e + 1;
+    }
+  }
+  const char* ed = l.tok[3];
+  int nargs = l.ntok - 4;
+  enum {Rename, Attr, AddText, AddElem, DelFirst, Clear, SetText, Push} kind;
+  if(strcmp(ed, "rename") == 0 && nargs == 1 && isHexTok(l.tok[4])) kind = Rename;
+  else if(strcmp(ed, "attr") == 0 && nargs == 2 && isHexTok(l.tok[4]) && isHexTok(l.tok[5])) kind = Attr;
+  else if(strcmp(ed, "addtext") == 0 && nargs == 1 && isHexTok(l.tok[4])) kind = AddText;
+  else if(strcmp(ed, "addelem") == 0 && nargs == 1 && isHexTok(l.tok[4])) kind = AddElem;
+  else if(strcmp(ed, "delfirst") == 0 && nargs == 0) kind = DelFirst;
+  else if(strcmp(ed, "clear") == 0 && nargs == 0) kind = Clear;
+  else if(strcmp(ed, "settext") == 0 && nargs == 2 && isDec(l.tok[4]) && isHexTok(l.tok[5])) kind = SetText;
+  else if(strcmp(ed, "push") == 0 && nargs == 1 && isDec(l.tok[4])) kind = Push;
+  else return false;
+
+  // validation through const access only: a Variant that is not an element counts as an empty element
+  {
+    const Xml::Variant* cv = &hvars[v];
+    const Xml::Element* ce = cv->isElement() ? &cv->toElement() : &hEmptyElement;
+    for(int i = 0; i < npath; ++i)
+    {
+      cv = nthVariantConst(*ce, path[i]);
+      if(!cv)
+        return false;
+      ce = cv->isElement() ? &cv->toElement() : &hEmptyElement;
+    }
+    if(kind == DelFirst && ce->content.isEmpty())
+      return false;
+    if(kind == SetText && !nthVariantConst(*ce, hxNum(l, 4)))
+      return false;
+    if(kind == Push)
+    {
+      unsigned long src = hxNum(l, 4);
+      if(src >= NVARS || src == v || hvars[src].isNull())
+        return false;
+    }
+  }
+
+  // the real thing: mutable accessors down the path, then the edit
+  Xml::Element* cur = &hvars[v].toElement();
+  for(int i = 0; i < npath; ++i)
+    cur = &nthVariant(*cur, path[i])->toElement();
+  switch(kind)
+  {
+  case Rename: cur->type = tokString(l.tok[4]); break;
+  case Attr: cur->attributes.append(tokString(l.tok[4]), tokString(l.tok[5])); break;
+  case AddText: cur->content.append(Xml::Variant(tokString(l.tok[4]))); break;
+  case AddElem:
+    {
+      Xml::Element e;
+      e.line = e.column = 0;
+      e.type = tokString(l.tok[4]);
+      cur->content.append(Xml::Variant(e));
+    }
+    break;
+  case DelFirst: cur->content.removeFront(); break;
+  case Clear: cur->clear(); break;
+  case SetText: *nthVariant(*cur, hxNum(l, 4)) = tokString(l.tok[5]); break;
+  case Push: cur->content.append(hvars[hxNum(l, 4)]); break;
+  }
+  return true;
+}
+
+// "Syntax error at line %d, column %d: <msg>" -> fail <line> <col> <code>
+static void putPublicFailure(const String& err)
+{
+  int line = 0, col = 0, used = 0;
+  const char* e = err;
+  if(sscanf(e, "Syntax error at line %d, column %d: %n", &line, &col, &used) == 2 && used > 0)
+    printf("fail %d %d %s", line, col, msgCode(String(e + used, err.length() - used)));
+  else
+  {
+    printf("FAULT error-string ");
+    hxPutHex(e, err.length());
+  }
+}
+
+static void putParsed(bool ok, const Xml::Element& e, const Xml::Parser& p)
+{
+  if(ok)
+  {
+    printf("ok ");
+    dump(e);
+  }
+  else
+    printf("fail %d %d %s", p.getErrorLine(), p.getErrorColumn(), msgCode(p.getErrorString()));
+}
+
 // data: exactly sized heap block of len + 1 bytes, the last one NUL
 static void doParse(const char* data)
 {
@@ -258,7 +442,97 @@ int main()
     opAllocated = 0;
     alarm(5);
     if(hxIs(l, "reset", 0))
+    {
+      for(unsigned i = 0; i < NVARS; ++i)
+        hvars[i].clear();
       printf("ready");
+    }
+    else if(l.ntok == 3 && strcmp(l.tok[0], "hassign") == 0)
+    {
+      if(isDec(l.tok[1]) && isDec(l.tok[2]) && hxNum(l, 1) < NVARS && hxNum(l, 2) < NVARS)
+      {
+        hvars[hxNum(l, 1)] = hvars[hxNum(l, 2)];
+        putVars();
+      }
+      else
+        printf("bad-op");
+    }
+    else if(l.ntok == 2 && strcmp(l.tok[0], "hclear") == 0)
+    {
+      if(isDec(l.tok[1]) && hxNum(l, 1) < NVARS)
+      {
+        hvars[hxNum(l, 1)].clear();
+        putVars();
+      }
+      else
+        printf("bad-op");
+    }
+    else if(l.ntok == 3 && strcmp(l.tok[0], "hsetstr") == 0)
+    {
+      if(isDec(l.tok[1]) && hxNum(l, 1) < NVARS && isHexTok(l.tok[2]))
+      {
+        hvars[hxNum(l, 1)] = tokString(l.tok[2]);
+        putVars();
+      }
+      else
+        printf("bad-op");
+    }
+    else if(strcmp(l.tok[0], "hmut") == 0)
+    {
+      if(doMut(l))
+        putVars();
+      else
+        printf("bad-op");
+    }
+    else if(hxIs(l, "pparse", 1) && isHexTok(l.tok[1]))
+    {
+      // the public entry point Xml::parse(const String&) -> Xml::parse(const char*); error text through Error
+      String data = tokString(l.tok[1]);
+      Xml::Element e;
+      e.line = e.column = 0;
+      if(Xml::parse(data, e))
+      {
+        printf("ok ");
+        dump(e);
+      }
+      else
+        putPublicFailure(Error::getErrorString());
+    }
+    else if(hxIs(l, "parser", 1) && isHexTok(l.tok[1]))
+    {
+      String data = tokString(l.tok[1]);
+      Xml::Parser p;
+      Xml::Element e;
+      e.line = e.column = 0;
+      putParsed(p.parse(data, e), e, p);
+    }
+    else if(hxIs(l, "file", 1))
+    {
+      Xml::Element e;
+      if(specTree(l.tok[1], e))
+      {
+        const char* dir = getenv("TMPDIR");
+        String path = String::fromPrintf("%s/nstd-verif-xml-%d.xml", dir && *dir ? dir : "/tmp", (int)getpid());
+        if(!Xml::save(e, path))
+          printf("FAULT save");
+        else
+        {
+          Xml::Element e2, e3;
+          e2.line = e2.column = e3.line = e3.column = 0;
+          bool ok2 = Xml::load(path, e2);
+          String err2 = ok2 ? String() : Error::getErrorString();
+          Xml::Parser p;
+          bool ok3 = p.load(path, e3);
+          unlink(path);
+          if(ok2 != ok3 || (ok2 && e2.toString() != e3.toString()))
+            printf("FAULT load-mismatch");
+          else
+            putParsed(ok3, e3, p);
+        }
+      }
+      else
+        printf("bad-op");
+    }
     else if(hxIs(l, "parse", 1) && isHexTok(l.tok[1]))
     {
       size_t len = 0;
